@@ -536,9 +536,10 @@ func getTypeName(ident ir.LocalIdent) string {
 	if ident.IsUnnamed() {
 		return strconv.FormatInt(ident.LocalID, 10)
 	}
-	if x, err := strconv.ParseInt(ident.LocalName, 10, 64); err == nil && strconv.FormatInt(x, 10) == ident.LocalName {
+	if x, err := strconv.ParseInt(ident.LocalName, 10, 64); err == nil && x >= 0 && strconv.FormatInt(x, 10) == ident.LocalName {
 		// Print LocalName with quotes if it is the spelling of a number; e.g.
-		// %"42" (names such as "007" or "+5" are not, and are kept as they are).
+		// %"42" (names such as "007", "+5" or "-1" are not the spelling of an
+		// ID, and are kept as they are).
 		return fmt.Sprintf(`"%d"`, x)
 	}
 	return ident.LocalName
